@@ -31,6 +31,9 @@ import (
 var (
 	verifDir = envOr("VERIF_DIR", "/verif")
 	repoDir  = envOr("VERIF_REPO", "/repo")
+	// outDir receives evidence/ and replay/; it differs from verifDir only when
+	// a scratch copy of the repository is checked (mutants/ptry.sh)
+	outDir = envOr("VERIF_OUT", envOr("VERIF_DIR", "/verif"))
 )
 
 func envOr(k, d string) string {
@@ -431,7 +434,7 @@ func runProperty(prop, tier, only string, par int, hs []harness, pkgNames map[st
 	// ---- verdict ----
 	var violations, knownLines, inconcl []string
 	var replayed int
-	replayDir := filepath.Join(verifDir, "replay", prop)
+	replayDir := filepath.Join(outDir, "replay", prop)
 	os.MkdirAll(replayDir, 0o755)
 	old, _ := filepath.Glob(filepath.Join(replayDir, "*.json"))
 	for _, f := range old {
@@ -590,8 +593,11 @@ func replayFile(path string, hs []harness, pkgNames map[string]string) (bool, st
 	cmd.Env = append(os.Environ(), "GOFLAGS=-mod=readonly", "GOPROXY=off", "GOSUMDB=off", "GOTOOLCHAIN=local", "VERIF_REPLAY="+abs)
 	outb, _ := cmd.CombinedOutput()
 	out := string(outb)
-	if strings.Contains(out, "VERIF-ASSUME-FAILED") {
-		return false, out
+	// only what happens before the first failed assumption counts: natively a
+	// failed assertion does not end the run, so a later assumption may fail on
+	// the same values without invalidating the reproduction
+	if i := strings.Index(out, "VERIF-ASSUME-FAILED"); i >= 0 {
+		out = out[:i]
 	}
 	switch rec.Kind {
 	case "assert":
@@ -706,9 +712,9 @@ func writeEvidence(prop, tier string, seed int, results []jobResult, eng *symgo.
 		"property_id": prop, "tier": tier, "seed": seed, "level": "model_checking", "coverage": cov,
 		"assumptions": assumptionsFor(prop), "wall_s": wall.Seconds(), "violations": violations,
 	}
-	os.MkdirAll(filepath.Join(verifDir, "evidence"), 0o755)
+	os.MkdirAll(filepath.Join(outDir, "evidence"), 0o755)
 	b, _ := json.MarshalIndent(ev, "", " ")
-	os.WriteFile(filepath.Join(verifDir, "evidence", prop+".json"), b, 0o644)
+	os.WriteFile(filepath.Join(outDir, "evidence", prop+".json"), b, 0o644)
 }
 
 // assumptionsFor reads the per-property assumptions (bounds, stubs, what is
